@@ -42,6 +42,10 @@ type Stream struct {
 	failFrom     int // fail every Write from the k-th on (1-based); 0 = never
 	shortWriteAt int // the k-th Write writes only half and returns an error
 	yieldOnWrite bool
+	holdWriteAt  int           // the k-th Write blocks until holdRelease is closed, then fails without delivering
+	holdEntered  chan struct{} // closed when that Write has arrived
+	holdRelease  chan struct{}
+	holdDeliver  bool // the held Write delivers its bytes first and succeeds when released
 
 	blocked int // readers currently blocked waiting for bytes
 	reads   int // number of completed Read calls
@@ -128,6 +132,32 @@ func (s *Stream) YieldOnWrite(on bool) {
 	s.mu.Unlock()
 }
 
+// HoldWriteAt makes the k-th Write (1-based) block until release is called and
+// then fail without delivering anything. entered is closed when the Write has
+// arrived.
+func (s *Stream) HoldWriteAt(k int) (entered <-chan struct{}, release func()) {
+	s.mu.Lock()
+	defer s.mu.Unlock()
+	s.holdWriteAt = k
+	s.holdDeliver = false
+	s.holdEntered = make(chan struct{})
+	s.holdRelease = make(chan struct{})
+	rel := s.holdRelease
+	var once sync.Once
+	return s.holdEntered, func() { once.Do(func() { close(rel) }) }
+}
+
+// PauseAfterWriteAt makes the k-th Write (1-based) deliver its bytes, then
+// block until release is called, and only then return (successfully): the
+// writer is "descheduled" between the write and its return.
+func (s *Stream) PauseAfterWriteAt(k int) (entered <-chan struct{}, release func()) {
+	entered, release = s.HoldWriteAt(k)
+	s.mu.Lock()
+	s.holdDeliver = true
+	s.mu.Unlock()
+	return entered, release
+}
+
 // Write appends p (copied).
 func (s *Stream) Write(p []byte) (int, error) {
 	s.mu.Lock()
@@ -135,6 +165,22 @@ func (s *Stream) Write(p []byte) (int, error) {
 	if s.rclosed || s.wclosed {
 		s.mu.Unlock()
 		return 0, io.ErrClosedPipe
+	}
+	if s.holdWriteAt != 0 && s.writes == s.holdWriteAt {
+		ent, rel, deliver := s.holdEntered, s.holdRelease, s.holdDeliver
+		if deliver {
+			s.buf = append(s.buf, p...)
+		}
+		s.mu.Unlock()
+		if deliver {
+			s.cond.Broadcast()
+		}
+		close(ent)
+		<-rel
+		if deliver {
+			return len(p), nil
+		}
+		return 0, ErrInjected
 	}
 	if (s.failWriteAt != 0 && s.writes == s.failWriteAt) || (s.failFrom != 0 && s.writes >= s.failFrom) {
 		s.mu.Unlock()
